@@ -1,7 +1,7 @@
 """Scenario sets: TLC enumerates them from spec/Ring.tla (one-shot mode: every layout x every call x
 every argument x every fault point x every view script); this module turns TLC's output into harness
 scenarios (prelude that reaches the layout through the public API, the calls, follow-ups)."""
-import os, json, re, time
+import os, json, re, time, shutil
 from . import core
 from .core import OUT, SPEC, log, ToolError
 
@@ -253,6 +253,47 @@ def build(raw, sid, route='back', poison=None, observe=True, mode=0):
             "pred": {"start": lay['start'], "size": lay['size']}}
 
 
+HIST_FAMILIES = [f for f in ALL_FAMILIES if f not in ('faults', 'ctor')]
+
+
+def hist_raw(n, num, seed, maxcalls=8):
+    """TLC in simulation mode on Ring.tla, Mode = "history": behaviours of `maxcalls` calls from new() (every view life counts
+    as one call); the refinement L1 => L0 is checked along each, and every enabled last step of every generated behaviour
+    is printed (ACTION_CONSTRAINT EmitScenario), i.e. each printed scenario is a complete multi-call behaviour of L1."""
+    key = core.sha(core.spec_hash(['Ring.tla', 'Contract.tla', 'Scen_Ring.cfg.tmpl']), 'hist', n, num, seed, maxcalls, ','.join(HIST_FAMILIES))
+    d = core.ensure(os.path.join(OUT, 'scen'))
+    raw = os.path.join(d, 'hist_N%d_%s.ndjson' % (n, key))
+    meta = raw + '.meta.json'
+    if os.path.exists(raw) and os.path.exists(meta):
+        return raw, json.load(open(meta))
+    cfg = os.path.join(SPEC, '_gen_hist_%d_%s_%d.cfg' % (n, key, os.getpid()))
+    ring_cfg(cfg, n, False, 'history', maxcalls, min(2 * n + 1, 3), HIST_FAMILIES)
+    md = os.path.join(OUT, 'work', 'md_hist_%d_%s_%d' % (n, key, os.getpid()))
+    t0 = time.time()
+    try:
+        rc, out = core.java_tlc(['-workers', '1', '-simulate', 'num=%d' % num, '-depth', '400', '-seed', str(seed), '-aril', '0',
+                                 '-metadir', md, '-noGenerateSpecTE', '-config', os.path.basename(cfg), 'Ring.tla'], heap='4g', timeout=3600)
+    finally:
+        os.remove(cfg)
+        shutil.rmtree(md, ignore_errors=True)
+    if 'is violated' in out or 'Error:' in out or 'traces generated' not in out:
+        raise ToolError('TLC simulation of Ring.tla (history mode) N=%d failed or found a refinement violation:\n%s' % (n, out[-3000:]))
+    lines = []
+    for line in out.splitlines():
+        m = SCN_RE.match(line)
+        if m:
+            lines.append(m.group(1).encode().decode('unicode_escape'))
+    m = re.search(r'(\d+) states checked, (\d+) traces generated', out)
+    stats = {'n': n, 'mode': 'history', 'states': int(m.group(1)) if m else 0, 'transitions': int(m.group(1)) if m else 0,
+             'behaviours_simulated': int(m.group(2)) if m else 0, 'scenarios': len(lines), 'calls_per_behaviour': maxcalls,
+             'families': HIST_FAMILIES, 'seed': seed, 'wall_s': round(time.time() - t0, 1), 'ops': {}}
+    with open(raw + '.tmp', 'w') as f:
+        f.write('\n'.join(lines) + ('\n' if lines else ''))
+    os.replace(raw + '.tmp', raw)
+    json.dump(stats, open(meta, 'w'))
+    return raw, stats
+
+
 def load_raw(path):
     out = []
     with open(path) as f:
@@ -271,16 +312,23 @@ def io_layout_steps(n, start, size, fam, vals=None):
     implementation that re-centres an emptied buffer still reaches the layout): read() advances the front,
     consume() (a drain) removes without moving it"""
     st = [{"op": "new"}]
+    content = vals if vals is not None else [k + 1 for k in range(size)]
+    if n > 0 and 0 < start < n:
+        # fillers, then as much of the contents as fits, then the fillers are read away (the buffer keeps the contents,
+        # so it is never empty on the way unless the target layout is itself empty), then the rest wraps around
+        c1 = min(size, n - start)
+        st.append({"op": "write", "vals": [7] * start, "fam": fam})
+        if c1 > 0:
+            st.append({"op": "write", "vals": content[:c1], "fam": fam})
+        st.append({"op": "read", "i": start, "fam": fam})
+        if size > c1:
+            st.append({"op": "write", "vals": content[c1:], "fam": fam})
+        return st
     if n > 0 and start > 0:
-        if start < n:
-            st.append({"op": "write", "vals": [7] * (start + 1), "fam": fam})
-            st.append({"op": "read", "i": start, "fam": fam})
-            st.append({"op": "consume", "i": 1, "fam": fam})
-        else:
-            st.append({"op": "write", "vals": [7] * start, "fam": fam})
-            st.append({"op": "read", "i": start, "fam": fam})
+        st.append({"op": "write", "vals": [7] * start, "fam": fam})
+        st.append({"op": "read", "i": start, "fam": fam})
     if size > 0:
-        st.append({"op": "write", "vals": vals if vals is not None else [k + 1 for k in range(size)], "fam": fam})
+        st.append({"op": "write", "vals": content, "fam": fam})
     return st
 
 
